@@ -318,6 +318,57 @@ func (x *X) CloseFd(label string) error {
 	return x.fs("closefd", label, unix.Close(fd))
 }
 
+// Rec is one crafted inotify_event record.
+type Rec struct {
+	Wd     int32
+	Mask   uint32
+	Cookie uint32
+	Name   string
+}
+
+func (r Rec) bytes() []byte {
+	nl := 0
+	if r.Name != "" {
+		nl = (len(r.Name) + 1 + 15) &^ 15 // NUL-terminated, padded to 16 like the kernel does
+	}
+	b := make([]byte, 16+nl)
+	le := func(off int, v uint32) { b[off], b[off+1], b[off+2], b[off+3] = byte(v), byte(v>>8), byte(v>>16), byte(v>>24) }
+	le(0, uint32(r.Wd))
+	le(4, r.Mask)
+	le(8, r.Cookie)
+	le(12, uint32(nl))
+	copy(b[16:], r.Name)
+	return b
+}
+
+// SubstitutePipe replaces the file the reader reads from by a pipe whose
+// write end the harness keeps; must be called right after NewWatcher (before
+// the reader thread has run). The real inotify descriptor stays open (Add and
+// Remove keep working on it) and is released by the harness.
+func (x *X) SubstitutePipe(w *fsnotify.Watcher) {
+	var p [2]int
+	mustNil(unix.Pipe2(p[:], unix.O_NONBLOCK|unix.O_CLOEXEC))
+	rf := os.NewFile(uintptr(p[0]), "injected-inotify")
+	vsys.RegisterPipe(rf, p[0])
+	old := fsnotify.VerifSetInotifyFile(w, rf)
+	vsys.Disown(old)
+	x.fds[fmt.Sprintf("pipe-w%d", x.widx(w))] = p[1]
+}
+
+// Inject writes crafted records into the substituted pipe in one write
+// (= one batch for the reader, unless it is behind).
+func (x *X) Inject(w *fsnotify.Watcher, recs ...Rec) {
+	vsched.Step(fmt.Sprintf("inject %d records", len(recs)))
+	var b []byte
+	var desc []string
+	for _, r := range recs {
+		b = append(b, r.bytes()...)
+		desc = append(desc, fmt.Sprintf("wd%d:%#x:%s", r.Wd, r.Mask, r.Name))
+	}
+	_, err := unix.Write(x.fds[fmt.Sprintf("pipe-w%d", x.widx(w))], b)
+	x.fs("inject", strings.Join(desc, ","), err)
+}
+
 // Quiesce lets every other thread run until none is enabled.
 func (x *X) Quiesce() { vsched.WaitIdle() }
 
